@@ -105,6 +105,17 @@ theorem addBitSizeU32_small_val (b0 b1 b2 b3 : UInt32) (count : Nat) (hc : count
   have := b0.toNat_lt; have := b1.toNat_lt; have := b2.toNat_lt; have := b3.toNat_lt
   omega
 
+theorem u32Val4_inj (a0 a1 a2 a3 c0 c1 c2 c3 : UInt32) (h : u32Val [a0, a1, a2, a3] = u32Val [c0, c1, c2, c3]) :
+    [a0, a1, a2, a3] = [c0, c1, c2, c3] := by
+  have := a0.toNat_lt; have := a1.toNat_lt; have := a2.toNat_lt; have := a3.toNat_lt
+  have := c0.toNat_lt; have := c1.toNat_lt; have := c2.toNat_lt; have := c3.toNat_lt
+  simp only [u32Val] at h
+  have e0 : a0 = c0 := UInt32.toNat_inj.mp (by omega)
+  have e1 : a1 = c1 := UInt32.toNat_inj.mp (by omega)
+  have e2 : a2 = c2 := UInt32.toNat_inj.mp (by omega)
+  have e3 : a3 = c3 := UInt32.toNat_inj.mp (by omega)
+  rw [e0, e1, e2, e3]
+
 /-! ### little-endian octet strings -/
 
 theorem length_natLE (n v : Nat) : (natLE n v).length = n := by
@@ -209,13 +220,25 @@ theorem leNat_two (b : Bytes) (h : b.length = 2) : leNat b < 2 ^ 16 := by
   rw [h] at this
   exact this
 
+theorem w16_arith (x0 x1 x2 x3 c8 T t0 t1 t2 t3 s0 c0 a1 b1 a2 b2 s3 q : Nat)
+    (hs0 : s0 + 65536 * c0 = x0 + c8) (hT : T = t0 + 65536 * t1 + 4294967296 * t2 + 281474976710656 * t3)
+    (h1 : a1 + 65536 * b1 = x1 + c0 + t0) (h2 : a2 + 65536 * b2 = x2 + b1 + t1)
+    (h3 : s3 + 65536 * q = x3 + b2 + t2)
+    (l0 : s0 < 65536) (l1 : a1 < 65536) (l2 : a2 < 65536) (l3 : s3 < 65536) :
+    s0 + 65536 * a1 + 4294967296 * a2 + 281474976710656 * s3 =
+      (x0 + 65536 * x1 + 4294967296 * x2 + 281474976710656 * x3 + (c8 + 65536 * T)) % 18446744073709551616 := by
+  have e : x0 + 65536 * x1 + 4294967296 * x2 + 281474976710656 * x3 + (c8 + 65536 * T)
+      = (s0 + 65536 * a1 + 4294967296 * a2 + 281474976710656 * s3) + 18446744073709551616 * (q + t3) := by omega
+  rw [e, Nat.add_mul_mod_self_left]
+  omega
+
 theorem addBitSizeW16_val (half : Bytes) (count : Nat) (hl : half.length = 8) (hc : count < 2 ^ 64) :
     leNat (addBitSizeW16 half count) = (leNat half + 8 * count) % 2 ^ 64 := by
   match half, hl with
   | [a0, a1, a2, a3, a4, a5, a6, a7], _ =>
     rw [addBitSizeW16_eq]
     simp only [Nat.mul_zero, Nat.mul_one, Nat.reduceMul, List.drop_zero, List.drop_succ_cons, List.take_succ_cons,
-      List.take_zero, List.drop_nil, List.take_nil]
+      List.take_zero, List.take_nil]
     have w0 := leNat_two [a0, a1] rfl
     have w1 := leNat_two [a2, a3] rfl
     have w2 := leNat_two [a4, a5] rfl
@@ -239,6 +262,168 @@ theorem addBitSizeW16_val (half : Bytes) (count : Nat) (hl : half.length = 8) (h
     generalize stepc16 x1 c0 (count % 18446744073709551616 / 8192 % 65536) = r1 at *
     have h2 := stepc16_spec x2 r1.2 (count % 18446744073709551616 / 8192 / 65536 % 65536) w2 (by omega) h1.2.1
     generalize stepc16 x2 r1.2 (count % 18446744073709551616 / 8192 / 65536 % 65536) = r2 at *
-    omega
+    clear hv
+    have hm : ∀ z, z % 65536 % 65536 = z % 65536 := fun z => Nat.mod_mod _ _
+    rw [hm, hm, Nat.mod_eq_of_lt (show r1.1 < 65536 from h1.2.2), Nat.mod_eq_of_lt (show r2.1 < 65536 from h2.2.2)]
+    have e8 : 8 * count = count * 8 % 65536 + 65536 * (count / 8192) := by omega
+    rw [e8]
+    have hcm : count % 18446744073709551616 = count := Nat.mod_eq_of_lt hc
+    rw [hcm] at h1 h2 ⊢
+    exact w16_arith x0 x1 x2 x3 (count * 8 % 65536) (count / 8192) (count / 8192 % 65536)
+      (count / 8192 / 65536 % 65536) (count / 8192 / 65536 / 65536 % 65536) (count / 8192 / 65536 / 65536 / 65536)
+      _ c0 r1.1 r1.2 r2.1 r2.2 _ (((x3 + r2.2) % 65536 + count / 8192 / 65536 / 65536 % 65536) / 65536
+        + (x3 + r2.2) / 65536)
+      hs0 (by omega) h1.1 h2.1 (by omega) (by omega) h1.2.2 h2.2.2 (by omega)
+
+theorem length_addBitSizeW64 (half : Bytes) (count : Nat) : (addBitSizeW64 half count).length = 8 := by
+  simp only [addBitSizeW64, length_natLE]
+theorem length_addBitSizeW32 (half : Bytes) (count : Nat) : (addBitSizeW32 half count).length = 8 := by
+  simp only [addBitSizeW32, length_natLE, List.length_append]
+theorem length_addBitSizeW16 (half : Bytes) (count : Nat) : (addBitSizeW16 half count).length = 8 := by
+  rw [addBitSizeW16_eq]
+  simp only [length_natLE, List.length_append]
+
+theorem addBitSizeW32_eq_W64 (half : Bytes) (count : Nat) (hl : half.length = 8) (hc : count < 2 ^ 64) :
+    addBitSizeW32 half count = addBitSizeW64 half count :=
+  eq_of_leNat_eq _ _ (by rw [length_addBitSizeW32, length_addBitSizeW64])
+    (by rw [addBitSizeW32_val half count hl hc, addBitSizeW64_val])
+
+theorem addBitSizeW16_eq_W64 (half : Bytes) (count : Nat) (hl : half.length = 8) (hc : count < 2 ^ 64) :
+    addBitSizeW16 half count = addBitSizeW64 half count :=
+  eq_of_leNat_eq _ _ (by rw [length_addBitSizeW16, length_addBitSizeW64])
+    (by rw [addBitSizeW16_val half count hl hc, addBitSizeW64_val])
+
+theorem addBitSizeW_eq_W64 (w : Nat) (half : Bytes) (count : Nat) (hl : half.length = 8) (hc : count < 2 ^ 64) :
+    addBitSizeW w half count = addBitSizeW64 half count := by
+  simp only [addBitSizeW]
+  split
+  · rfl
+  · split
+    · exact addBitSizeW32_eq_W64 half count hl hc
+    · exact addBitSizeW16_eq_W64 half count hl hc
+
+theorem length_addBitSizeW (w : Nat) (half : Bytes) (count : Nat) : (addBitSizeW w half count).length = 8 := by
+  simp only [addBitSizeW]
+  split
+  · exact length_addBitSizeW64 _ _
+  · split
+    · exact length_addBitSizeW32 _ _
+    · exact length_addBitSizeW16 _ _
+
+/-! ### octet image of the u32 block -/
+
+theorem leNat_st32 (w : UInt32) : leNat (st32 w) = w.toNat := by
+  have := w.toNat_lt
+  simp only [st32, leNat]
+  rw [UInt8.toNat_ofNat', UInt8.toNat_ofNat', UInt8.toNat_ofNat', UInt8.toNat_ofNat']
+  omega
+
+theorem leNat_u32To (ws : List UInt32) : leNat (u32To ws) = u32Val ws := by
+  induction ws with
+  | nil => rfl
+  | cons w ws ih =>
+    have h4 : (st32 w).length = 4 := rfl
+    simp only [u32To, leNat_append, leNat_st32, ih, u32Val, h4, Nat.reducePow]
+
+theorem u32Val_u32From (b : Bytes) (h : b.length = 16) : u32Val (u32From b) = leNat b := by
+  rw [← leNat_u32To, u32To_u32From_16 b h]
+
+theorem addBitSizeBlock_val (b : Bytes) (count : Nat) (hl : b.length = 16) (hc : count < 2 ^ 64) :
+    leNat (addBitSizeBlock b count) = (leNat b + 8 * count) % 2 ^ 128 := by
+  rcases u32From_16 b hl with ⟨w0, w1, w2, w3, hw⟩
+  rw [addBitSizeBlock, leNat_u32To, hw, addBitSizeU32_val _ _ _ _ _ hc, ← hw, u32Val_u32From b hl]
+
+theorem length_addBitSizeBlock (b : Bytes) (count : Nat) (hl : b.length = 16) :
+    (addBitSizeBlock b count).length = 16 := by
+  rcases u32From_16 b hl with ⟨w0, w1, w2, w3, hw⟩
+  rw [addBitSizeBlock, hw, addBitSizeU32_eq, length_u32To]
+  rfl
+
+/-! ### xor of buffers -/
+
+theorem length_xorb (a b : Bytes) : (xorb a b).length = min a.length b.length := by
+  simp only [xorb, List.length_zipWith]
+
+theorem u8_xor_cancel (x y : UInt8) : x ^^^ y ^^^ y = x := by
+  rw [UInt8.xor_assoc, UInt8.xor_self, UInt8.xor_zero]
+
+theorem xorb_nil_left (b : Bytes) : xorb [] b = [] := by simp only [xorb, List.zipWith_nil_left]
+
+theorem xorb_xorb_cancel (a b : Bytes) (h : a.length ≤ b.length) : xorb (xorb a b) b = a := by
+  induction a generalizing b with
+  | nil => simp only [xorb, List.zipWith_nil_left]
+  | cons x a ih =>
+    cases b with
+    | nil => simp only [List.length_cons, List.length_nil] at h; omega
+    | cons y b =>
+      simp only [List.length_cons] at h
+      have := ih b (by omega)
+      simp only [xorb, List.zipWith_cons_cons, u8_xor_cancel] at this ⊢
+      rw [this]
+
+theorem xorb_append (a1 a2 b1 b2 : Bytes) (h : a1.length = b1.length) :
+    xorb (a1 ++ a2) (b1 ++ b2) = xorb a1 b1 ++ xorb a2 b2 := by
+  simp only [xorb]
+  exact List.zipWith_append h
+
+/-! ### the block loop -/
+
+theorem blockLoop_fuel {σ : Type} (body : σ → Bytes → σ × Bytes) :
+    ∀ (fuel fuel' : Nat) (s : σ) (rest : Bytes), rest.length ≤ fuel → rest.length ≤ fuel' →
+      blockLoop 16 (fun n => decide (16 ≤ n)) body fuel s rest
+        = blockLoop 16 (fun n => decide (16 ≤ n)) body fuel' s rest := by
+  intro fuel
+  induction fuel with
+  | zero =>
+    intro fuel' s rest h h'
+    have : rest.length = 0 := by omega
+    cases fuel' with
+    | zero => rfl
+    | succ m => simp only [blockLoop, this]; rfl
+  | succ n ih =>
+    intro fuel' s rest h h'
+    cases fuel' with
+    | zero =>
+      have : rest.length = 0 := by omega
+      simp only [blockLoop, this]; rfl
+    | succ m =>
+      simp only [blockLoop]
+      by_cases hc : 16 ≤ rest.length
+      · simp only [hc, decide_true, if_true]
+        have hd : (rest.drop 16).length ≤ n := by simp only [List.length_drop]; omega
+        have hd' : (rest.drop 16).length ≤ m := by simp only [List.length_drop]; omega
+        rw [ih m _ _ hd hd']
+      · simp only [hc, decide_false]; rfl
+
+theorem fullBlocks_short {σ : Type} (body : σ → Bytes → σ × Bytes) (s : σ) (buf : Bytes) (h : buf.length < 16) :
+    fullBlocks 16 body s buf = (s, [], buf) := by
+  unfold fullBlocks
+  cases buf.length with
+  | zero => rfl
+  | succ n =>
+    have hc : ¬ 16 ≤ buf.length := by omega
+    simp only [blockLoop, hc, decide_false]; rfl
+
+theorem blockLoop_step {σ : Type} (body : σ → Bytes → σ × Bytes) (fuel : Nat) (s : σ) (rest : Bytes)
+    (h : 16 ≤ rest.length) :
+    blockLoop 16 (fun n => decide (16 ≤ n)) body (fuel + 1) s rest =
+      ((blockLoop 16 (fun n => decide (16 ≤ n)) body fuel (body s (rest.take 16)).1 (rest.drop 16)).1,
+       (body s (rest.take 16)).2 ++
+        (blockLoop 16 (fun n => decide (16 ≤ n)) body fuel (body s (rest.take 16)).1 (rest.drop 16)).2.1,
+       (blockLoop 16 (fun n => decide (16 ≤ n)) body fuel (body s (rest.take 16)).1 (rest.drop 16)).2.2) := by
+  simp only [blockLoop, h, decide_true, if_true]
+
+theorem fullBlocks_cons {σ : Type} (body : σ → Bytes → σ × Bytes) (s : σ) (b rest : Bytes) (hb : b.length = 16) :
+    fullBlocks 16 body s (b ++ rest) =
+      ((fullBlocks 16 body (body s b).1 rest).1, (body s b).2 ++ (fullBlocks 16 body (body s b).1 rest).2.1,
+        (fullBlocks 16 body (body s b).1 rest).2.2) := by
+  have hl : (b ++ rest).length = rest.length + 16 := by simp only [List.length_append, hb]; omega
+  have ht : (b ++ rest).take 16 = b := List.take_left' hb
+  have hd : (b ++ rest).drop 16 = rest := List.drop_left' hb
+  show blockLoop 16 _ body (b ++ rest).length s (b ++ rest) = _
+  rw [blockLoop_fuel body (b ++ rest).length (rest.length + 15 + 1) s (b ++ rest) (Nat.le_refl _) (by omega)]
+  rw [blockLoop_step body _ s _ (by omega), ht, hd]
+  rw [blockLoop_fuel body (rest.length + 15) rest.length _ rest (by omega) (Nat.le_refl _)]
+  rfl
 
 end Bee2V.C01
